@@ -44,11 +44,14 @@ EXPLANATION = "path-execution/normal-form obligations on Solution, LRA + QF_FP o
 @contract("C20", "Solution/iterator", samples=1)
 def c_iter(k):
     k.covers(Solution.__init__, Solution.__iter__, Solution.SolutionIterator.__init__, Solution.SolutionIterator.__next__)
-    for nt, nq, nu, nla in ((1, 2, 2, 1), (3, 2, 1, 0), (4, 1, 3, 2)):
+    # (row counts and widths in every relation: fewer / more instants than coordinates, and EQUAL numbers - square fields,
+    # where a row and a column have the same length and only the values tell them apart)
+    for nt, nq, nu, nla in ((1, 2, 2, 1), (3, 2, 1, 0), (4, 1, 3, 2), (3, 3, 3, 3), (2, 2, 3, 2), (1, 1, 1, 1)):
         t = np.arange(nt) * 0.5
-        q = k.reals(f"q{nt}", (nt, nq))
-        u = k.reals(f"u{nt}", (nt, nu))
-        la = k.reals(f"la{nt}", (nt, nla)) if nla else np.zeros((nt, 0))
+        tagc = f"{nt}x{nq}x{nu}x{nla}"
+        q = k.reals(f"q{tagc}", (nt, nq))
+        u = k.reals(f"u{tagc}", (nt, nu))
+        la = k.reals(f"la{tagc}", (nt, nla)) if nla else np.zeros((nt, 0))
         sol = Solution(system=None, t=t, q=q, u=u, la_g=la, P_g=2 * la)
         ok, recs = k.no_raise(f"iterating a solution with {nt} instants returns", lambda: list(sol))
         if not ok:
